@@ -860,6 +860,20 @@ fn run(ctx: &mut Ctx) {
             }
             big.push(chain);
         }
+        // comparisons whose operand lists concatenate to the same sequence but split differently,
+        // same operator, side by side (and an empty side)
+        {
+            let v = |n: &str| Ast::var(n);
+            for op in [refl::Cmp::Exactly, refl::Cmp::AtMost, refl::Cmp::MoreThan] {
+                for (l1, r1, l2, r2) in [(vec!["a", "b"], vec!["c"], vec!["a"], vec!["b", "c"]), (vec!["a", "b", "c"], vec![], vec![], vec!["a", "b", "c"]), (vec!["a"], vec!["a"], vec!["a", "a"], vec![]), (vec!["a", "b"], vec!["a", "b"], vec!["a"], vec!["b", "a", "b"])] {
+                    let cv = |l: &Vec<&str>, r: &Vec<&str>| Ast::CV(op, l.iter().map(|n| v(n)).collect(), r.iter().map(|n| v(n)).collect());
+                    big.push(Ast::bin(refl::Bin::Or, cv(&l1, &r1), cv(&l2, &r2)));
+                    big.push(Ast::bin(refl::Bin::Implies, cv(&l2, &r2), cv(&l1, &r1)));
+                    // a list-vs-constant comparison next to a list-vs-list one over the same operands
+                    big.push(Ast::bin(refl::Bin::And, Ast::CC(op, l1.iter().chain(r1.iter()).map(|n| v(n)).collect(), "1".into()), cv(&l1, &r1)));
+                }
+            }
+        }
         for a in big {
             idx += 1;
             if ctx.mine(idx) {
